@@ -89,12 +89,14 @@ COST_SAMPLES = [
     ('caps_interval_data', 'caps_dict', dict(T=4, wacc=True)),
     ('mixed_discount_rates', 'mixed_wacc', dict(T=3, freq='d', unit='d')),
     ('windows', 'windows', dict(T=4)),
+    ('storage_no_simult', 'contract_storage', dict(T=2, storage_kw=dict(no_simult_in_out=True))),
+    ('storage_max_duration', 'contract_storage', dict(T=3, eff=None, storage_kw=dict(max_store_duration=2, costs=False))),
     ('scaled_take_month_grid', 'scaled', dict(T=3, base='take', gridv='month_d')),
     ('coarse_storage', 'coarse', dict(T=4, kind='storage', eff=0.75, ec=True)),
     ('periodic_transport', 'periodic', dict(T=4, kind='transport', eff=0.5)),
     ('structured_two_internal', 'structured', dict(T=2, two_internal=True)),
 ]
-COST_QUICK = 16
+COST_QUICK = 18
 
 
 def run_costs(rec, seed, shape, kw):
